@@ -465,6 +465,109 @@ func okAfter(r string, kv, fs byte) bool {
 //@   loop 0 invariant okF:    vCbOK(f) && field ==> okFields(cur.src[cur.pos:], kvSep, fieldSep) == okFields(old(cur.src)[old(cur.pos):], kvSep, fieldSep)
 //@   loop 0 invariant okV:    vCbOK(f) && !field ==> okAfter(cur.src[cur.pos:], kvSep, fieldSep) == okFields(old(cur.src)[old(cur.pos):], kvSep, fieldSep)
 
+// ---- path parameter arrays: what the decoder must deliver for each row of the style table ----
+
+// mxItems / okMx: exploded matrix arrays, "name=v1;name=v2;..." after the leading ';'.
+func mxItems(s string, param string) []string {
+	if indexB(s, '=') < 0 || s[:indexB(s, '=')] != param {
+		return nil
+	}
+	return mxAfter(s[indexB(s, '=')+1:], param)
+}
+
+func mxAfter(r string, param string) []string {
+	if indexB(r, ';') < 0 {
+		if len(r) == 0 {
+			return nil
+		}
+		return []string{r}
+	}
+	return append([]string{r[:indexB(r, ';')]}, mxItems(r[indexB(r, ';')+1:], param)...)
+}
+
+func okMx(s string, param string) bool {
+	if indexB(s, '=') < 0 || s[:indexB(s, '=')] != param {
+		return false
+	}
+	return okMxAfter(s[indexB(s, '=')+1:], param)
+}
+
+func okMxAfter(r string, param string) bool {
+	if indexB(r, ';') < 0 {
+		return len(r) > 0
+	}
+	return okMx(r[indexB(r, ';')+1:], param)
+}
+
+// specPathArrayItems / specPathArrayOK: the items denoted by the serialization s of an array path
+// parameter named param, per style and explode (inverse reading of the style table, Appendix F):
+//   simple: a,b,c   label: .a,b,c / .a.b.c (explode)   matrix: ;p=a,b,c / ;p=a;p=b;p=c (explode)
+func specPathArrayItems(style PathStyle, explode bool, param string, s string) []string {
+	switch style {
+	case PathStyleLabel:
+		if len(s) == 0 || s[0] != '.' {
+			return nil
+		}
+		if explode {
+			return pieces(s[1:], '.')
+		}
+		return pieces(s[1:], ',')
+	case PathStyleMatrix:
+		if len(s) == 0 || s[0] != ';' {
+			return nil
+		}
+		if explode {
+			return mxItems(s[1:], param)
+		}
+		if indexB(s[1:], '=') < 0 || s[1:][:indexB(s[1:], '=')] != param {
+			return nil
+		}
+		return pieces(s[1:][indexB(s[1:], '=')+1:], ',')
+	}
+	return pieces(s, ',')
+}
+
+func specPathArrayOK(style PathStyle, explode bool, param string, s string) bool {
+	switch style {
+	case PathStyleLabel:
+		if len(s) == 0 || s[0] != '.' {
+			return false
+		}
+		if explode {
+			return okPieces(s[1:], '.')
+		}
+		return okPieces(s[1:], ',')
+	case PathStyleMatrix:
+		if len(s) == 0 || s[0] != ';' {
+			return false
+		}
+		if explode {
+			return okMx(s[1:], param)
+		}
+		if indexB(s[1:], '=') < 0 || s[1:][:indexB(s[1:], '=')] != param {
+			return false
+		}
+		return okPieces(s[1:][indexB(s[1:], '=')+1:], ',')
+	}
+	return okPieces(s, ',')
+}
+
+//@ func (d *PathDecoder) DecodeArray(f func(d Decoder) error) (err error)
+//@   callback f(d Decoder) log vals d.(*constval).v
+//@   requires style: validPathStyle(d.style)
+//@   requires cur:   d.cur != nil && 0 <= d.cur.pos && d.cur.pos <= len(d.cur.src)
+//@   modifies d.cur.pos, cb:f
+//@   ensures ok:     vCbOK(f) ==> (err == nil) == specPathArrayOK(d.style, d.explode, d.param, old(d.cur.src)[old(d.cur.pos):])
+//@   ensures items:  vCbOK(f) && err == nil ==> vSeqEq(vCbLog(f, "vals"), vCat(old(vCbLog(f, "vals")), specPathArrayItems(d.style, d.explode, d.param, old(d.cur.src)[old(d.cur.pos):])))
+//@   ensures cbfail: old(vCbOK(f)) && !vCbOK(f) ==> err != nil
+//@   uses indexBRange
+//@   loop 0 invariant wf:    d.cur == old(d.cur) && d.cur.src == old(d.cur.src) && 0 <= d.cur.pos && d.cur.pos <= len(d.cur.src)
+//@   loop 0 invariant mono:  vCbOK(f) == old(vCbOK(f))
+//@   loop 0 invariant head:  old(d.cur.pos) < len(d.cur.src) && d.cur.src[old(d.cur.pos)] == ';'
+//@   loop 0 invariant acc:   vCbOK(f) ==> vSeqEq(vCat(vCbLog(f, "vals"), mxItems(d.cur.src[d.cur.pos:], d.param)), vCat(old(vCbLog(f, "vals")), mxItems(old(d.cur.src)[old(d.cur.pos)+1:], d.param)))
+//@   loop 0 invariant ok:    vCbOK(f) ==> okMx(d.cur.src[d.cur.pos:], d.param) == okMx(old(d.cur.src)[old(d.cur.pos)+1:], d.param)
+//@   loop 0 decreases len(d.cur.src) - d.cur.pos
+
 func validPathStyle(s PathStyle) bool {
 	return s == PathStyleSimple || s == PathStyleLabel || s == PathStyleMatrix
 }
